@@ -998,6 +998,43 @@ func c12UnionWrapperClassified(ctx *Ctx, r *Report) {
 			total = true
 		}
 	}
+	// the scalar hint is decided on what the branches are on the wire: a reference to a named scalar or to an enum is a
+	// scalar there, so the test has to resolve references (the syntactic Types.HasOnlyScalarOrArrayOrMap does not)
+	resolves := false
+	for _, st := range fd.Body.List {
+		is, ok := st.(*ast.IfStmt)
+		if !ok {
+			continue
+		}
+		scalarHint := false
+		ast.Inspect(is.Body, func(n ast.Node) bool {
+			if as, ok := n.(*ast.AssignStmt); ok && len(as.Lhs) == 1 {
+				if ix, ok := ast.Unparen(as.Lhs[0]).(*ast.IndexExpr); ok && strings.HasSuffix(exprString(ix.Index), "HintDisjunctionOfScalars") {
+					scalarHint = true
+				}
+			}
+			return true
+		})
+		if !scalarHint {
+			continue
+		}
+		if c, ok := ast.Unparen(is.Cond).(*ast.CallExpr); ok {
+			if f := callee(info, c); f != nil {
+				if hfd, _ := ctx.DeclOf(f); hfd != nil && hfd.Body != nil {
+					ast.Inspect(hfd.Body, func(n ast.Node) bool {
+						if c2, ok := n.(*ast.CallExpr); ok {
+							if f2 := callee(info, c2); f2 != nil && strings.HasPrefix(f2.Name(), "Resolve") {
+								resolves = true
+							}
+						}
+						return true
+					})
+				}
+			}
+		}
+	}
+	r.Check(resolves, "flow/union-scalar-references-classified", "DisjunctionToType decides the scalar hint on resolved branches", fd.Pos(), "the test that grants HintDisjunctionOfScalars resolves references",
+		"HintDisjunctionOfScalars is granted on the syntactic kind of the branches: `size: #Pos | string` (#Pos: int & >0) has a reference branch, gets no hint, and the wrapper PosOrString is decoded as an object with the keys \"Pos\" / \"String\" — {\"size\": 5} is refused, {\"size\": {\"Pos\": 5}} accepted")
 	r.Count("conditional union hints in DisjunctionToType", conditional)
 	r.Floor("conditional union hints in DisjunctionToType", 1)
 	r.Check(total, "flow/union-wrapper-classified", "DisjunctionToType classifies every union wrapper it creates", fd.Pos(),
